@@ -1114,6 +1114,7 @@ def run(ctx):
         _run(ctx, guard)
     finally:
         guard.close()
+    float32_oracle(ctx)
 
 
 def _run(ctx, guard):
@@ -1139,6 +1140,34 @@ def _run(ctx, guard):
         "every implementation call runs under a time-out and is killed by PID",
         "the real search is run under jax.jit with the function parameters traced and (tol, max_iter) static, plus an eager sample",
     ]
+
+
+def float32_oracle(ctx):
+    """The property in JAX's default float32 mode (the rest of this check runs in x64): separate process, no model."""
+    import json as _json
+    import subprocess
+    import sys as _sys
+
+    from harness import common
+
+    u = ctx.unit("search-oracle-float32", "_bisection_search in float32 (jax_enable_x64 off) on linear / cubic / sinh shapes, roots 1e-3..3, tolerances "
+                                          "1e-5..3e-9: |root - r| <= tol + 4 ulp_float32; implementation only; non-trivial = tol below float32 eps")
+    n = 80 if ctx.quick else 600
+    env = dict(os.environ, VERIF_REPO=common.REPO, JAX_PLATFORMS="cpu")
+    env.pop("JAX_ENABLE_X64", None)
+    r = subprocess.run([_sys.executable, os.path.join(common.VERIF, "harness", "c10_f32.py"), str(int(ctx.seed)), str(n)], capture_output=True, text=True,
+                       timeout=900, env=env, cwd=common.REPO)
+    rows = [_json.loads(l) for l in r.stdout.splitlines() if l.startswith("{")]
+    if len(rows) != n:
+        ctx.violation(sig="float32-oracle:crashed", what=f"float32 oracle process produced {len(rows)} of {n} results: {r.stderr[-300:]}", case=dict(unit=u.name),
+                      found_input=False, unit=u.name, broken="search-oracle-float32")
+    for row in rows:
+        u.count(_json.dumps(row["case"], sort_keys=True), nontrivial=row["case"]["tol"] < 1.2e-7, tag=row["case"]["shape"])
+        if not row["ok"]:
+            c = row["case"]
+            ctx.violation(sig=f"float32:{c['shape']}:tol", what=f"float32: _bisection_search on {c['shape']}(k={c['k']!r})(x - {c['r']!r}), interval [{c['lower']!r}, {c['upper']!r}], "
+                          f"tol={c['tol']!r}, max_iter=200 returned {row['root']!r}: |root - r| = {row['err']:.3g} > tol + 4 ulp = {row['allowed']:.3g}",
+                          case=dict(unit=u.name, **c), found_input=True, unit=u.name, expected=c["r"], observed=row["root"], broken="search-oracle-float32 / C10_search_within_tol")
 
 
 def replay(ctx, rep):
